@@ -169,6 +169,16 @@ func newLeaf() u.Hash {
 	binary.LittleEndian.PutUint64(b[:], leafCtr)
 	return u.Hash(sha512.Sum512_256(b[:]))
 }
+// structuredLeaves: k distinct leaf hashes that share their first 28 bytes ("txid || output index")
+func structuredLeaves(k int) []u.Hash {
+	base := newLeaf()
+	out := make([]u.Hash, k)
+	for i := range out {
+		out[i] = base
+		binary.BigEndian.PutUint32(out[i][28:], uint32(i))
+	}
+	return out
+}
 func toLeaves(h []u.Hash) []u.Leaf {
 	l := make([]u.Leaf, len(h))
 	for i := range h {
